@@ -147,7 +147,7 @@ Definition q0 : SymCoreOps.quirks := SymCoreOps.mkQuirks false.
 (* a container held by a frozen field is written to in depth: d.a.b = 2 where a is frozen to {b: 1} *)
 Definition frozen_inner : spec :=
   SDict (Some [(KConst [98%N], SInt None None m0)]) (Mods false (Some (PDict [([98%N], PInt 1)])) true).
-Definition frozen_ev : env := mkEnv [SDict (Some [(KConst [97%N], frozen_inner)]) m0; frozen_inner] [0%N; 0%N; 0%N].
+Definition frozen_ev : env := mkEnv [SDict (Some [(KConst [97%N], frozen_inner)]) m0; frozen_inner] [0%N; 0%N; 0%N] Typing.noq.
 Definition frozen_roots : list root := [RootTyped KDict 1 (mkFlags false true false 0) (PDict [])].
 Definition frozen_ops : list sop2 := [mkSop2 no_scope (O, [KS [97%N]]) (DSet false (KS [98%N]) (TPv (PInt 2)))].
 Lemma frozen_deep_witness :
@@ -160,7 +160,7 @@ Proof. vm_compute. auto. Qed.
    does; without it the model refuses to store it *)
 Definition union_spec : spec :=
   SUnion [SEnum [PInt 1; PStr [97%N]] (Mods false (Some (PBool true)) true); SBool (Mods false (Some (PBool false)) true)] m0.
-Definition union_ev : env := mkEnv [SDict (Some [(KConst [97%N], union_spec)]) m0] [0%N; 0%N; 0%N].
+Definition union_ev : env := mkEnv [SDict (Some [(KConst [97%N], union_spec)]) m0] [0%N; 0%N; 0%N] Typing.noq.
 Definition union_roots : list root := [RootTyped KDict 1 (mkFlags false true true 0) (PDict [])].
 Definition union_ops : list sop2 := [mkSop2 no_scope (O, []) (DSet false (KS [97%N]) (TPv (PFlt 64)))].
 Lemma union_witness :
@@ -172,7 +172,7 @@ Proof. vm_compute. auto. Qed.
 Definition ex_inner : spec := SDict (Some [(KConst [112%N], SFloat (Some 0) None m0); (KDyn, SList (SInt (Some 0) (Some 5) m0) 0 (Some 2) m0)]) m0.
 Definition ex_ev : env :=
   mkEnv [SDict (Some [(KConst [120%N], SInt None None (Mods false (Some (PInt 1)) false)); (KConst [121%N], ex_inner)]) m0; ex_inner;
-         SList (SInt (Some 0) (Some 5) m0) 0 (Some 2) m0] [0%N; 0%N; 0%N].
+         SList (SInt (Some 0) (Some 5) m0) 0 (Some 2) m0] [0%N; 0%N; 0%N] Typing.noq.
 Example good_env_example : good_env ex_ev.
 Proof. apply good_env_of_table. vm_compute. reflexivity. Qed.
 Example history_ok_example :
